@@ -170,6 +170,12 @@ String = ScalarType(
     parse_literal=_coerce_string_node,
 )  # type: ScalarType
 
+def _parse_id(value: Any) -> str:
+    if isinstance(value, bool) or not isinstance(value, (str, int)):
+        raise ValueError("ID cannot represent value: %r" % (value,))
+    return str(value)
+
+
 _coerce_id_node = _typed_coerce(str, _ast.StringValue, _ast.IntValue)
 
 
@@ -184,7 +190,7 @@ ID = ScalarType(
         "an ID."
     ),
     serialize=str,
-    parse=str,
+    parse=_parse_id,
     parse_literal=_coerce_id_node,
 )
 
